@@ -21,6 +21,9 @@ RULE = ("1-3 runs per case on one file specification under the virtual clock: ap
         "and one rotation; distinct = distinct case text")
 
 
+VIA_LOGGER = 0.25   # share of the file-writer histories that is run once more through Logger / LoggerHandle
+
+
 def corpus():
     out = []
     for naming in g.NAMINGS[:4]:
